@@ -565,3 +565,55 @@ Example special_level_example :
                   [Obj (fresh_dobj HWLOC_OBJ_PACKAGE 2 (Some (bs_of_N 3)) None None None (-1)%Z (-1)%Z) [] [mc] [] []] [] [] [] in
   map oid (special_level root HWLOC_OBJ_MISC) = map oid [misc] /\ List.length (special_level root HWLOC_OBJ_NUMANODE) = 1%nat.
 Proof. vm_compute. split; reflexivity. Qed.
+
+(* ---------- the load-time KEEP_STRUCTURE level merge (model: Restrict.keep_structure / merge_tree, run against
+   hwloc_filter_levels_keep_structure on every load and restrict with such a filter; proofs: Topo/MergeProofs.v) ---------- *)
+From HV Require Import Topo.Restrict Topo.MergeProofs.
+
+(* the pass loses nothing and invents nothing: as a multiset, the object payloads before the pass are those after it
+   plus the dropped ones - every memory, I/O and Misc child of both merged levels survives exactly once (seeded
+   changes C01d, C01h and C02a each lost or misplaced one of those lists) *)
+Theorem level_merge_keeps_every_object_once : forall filters dm root root',
+  keep_structure filters dm root = Some root' ->
+  Permutation (pays root) (pays root' ++ keep_structure_dropped filters dm root).
+Proof. exact keep_structure_payloads. Qed.
+Print Assumptions level_merge_keeps_every_object_once.
+
+(* one merge: what is dropped is one payload per merged (parent, only child) pair *)
+Theorem level_merge_step_keeps_every_object_once : forall ids rc o,
+  Permutation (pays o) (pays (merge_tree ids rc o) ++ dropped ids rc o).
+Proof. exact merge_tree_payloads. Qed.
+Print Assumptions level_merge_step_keeps_every_object_once.
+
+(* parent level removed: only listed objects (the removed level) are dropped *)
+Theorem level_merge_drops_only_the_parent_level : forall ids o,
+  Forall (fun d => memN (o_id d) ids = true) (dropped ids false o).
+Proof. exact dropped_replaceparent. Qed.
+Print Assumptions level_merge_drops_only_the_parent_level.
+
+(* child level removed: only the single normal children of listed objects are dropped *)
+Theorem level_merge_drops_only_the_child_level : forall ids o,
+  Forall (only_child_of_listed ids o) (dropped ids true o).
+Proof. exact dropped_replacechild. Qed.
+Print Assumptions level_merge_drops_only_the_child_level.
+
+(* never a memory, I/O or Misc object *)
+Theorem level_merge_drops_only_normal_objects : forall ids rc o d,
+  In d (dropped ids rc o) -> In d (map odata (nflatten o)).
+Proof. exact dropped_are_normal. Qed.
+Print Assumptions level_merge_drops_only_normal_objects.
+
+(* the memory children of every normal object stay ordered by the first bit of their complete nodeset *)
+Theorem level_merge_keeps_memory_children_sorted : forall filters dm root root',
+  keep_structure filters dm root = Some root' -> mem_sorted_tree root -> mem_sorted_tree root'.
+Proof. exact keep_structure_memory_sorted. Qed.
+Print Assumptions level_merge_keeps_memory_children_sorted.
+
+Example level_merge_nonvacuous :
+  mem_sorted_tree ex_tree /\
+  map o_id (pays ex_tree) = [1; 2; 3; 11; 12; 10] /\
+  map o_id (pays (merge_tree [1] false ex_tree)) = [2; 3; 11; 10; 12] /\
+  map o_id (dropped [1] false ex_tree) = [1] /\
+  map o_id (pays (merge_tree [1] true ex_tree)) = [1; 3; 11; 10; 12] /\
+  map o_id (dropped [1] true ex_tree) = [2].
+Proof. exact merge_tree_example. Qed.
